@@ -102,7 +102,7 @@ func genJRoot(t *rapid.T, depth int) JNode {
 	return JNode{K: "obj", Keys: []string{"a"}, Kids: []JNode{{K: "num", Num: "1"}}}
 }
 
-func jsonQuote(s string) string {
+func vhJsonQuote(s string) string {
 	b, _ := json.Marshal(s)
 	return string(b)
 }
@@ -117,7 +117,7 @@ func jsonQuoteASCII(s string) string {
 		case r == utf8.RuneError:
 			sb.WriteString(`\ufffd`)
 		case r < 0x80:
-			q := jsonQuote(string(r))
+			q := vhJsonQuote(string(r))
 			sb.WriteString(q[1 : len(q)-1])
 		case r <= 0xFFFF:
 			fmt.Fprintf(&sb, `\u%04x`, r)
@@ -175,7 +175,7 @@ func (n JNode) write(sb *strings.Builder, ws func() string) {
 			if i > 0 {
 				sb.WriteString("," + ws())
 			}
-			sb.WriteString(jsonQuote(k) + ws() + ":" + ws())
+			sb.WriteString(vhJsonQuote(k) + ws() + ":" + ws())
 			n.Kids[i].write(sb, ws)
 			sb.WriteString(ws())
 		}
@@ -191,7 +191,7 @@ func (n JNode) write(sb *strings.Builder, ws func() string) {
 		}
 		sb.WriteString("]")
 	case "str":
-		sb.WriteString(jsonQuote(n.S))
+		sb.WriteString(vhJsonQuote(n.S))
 	case "num":
 		sb.WriteString(n.Num)
 	case "bool":
@@ -213,7 +213,7 @@ func (n JNode) Permuted(t *rapid.T) JNode {
 		out.Kids[i] = n.Kids[i].Permuted(t)
 	}
 	if n.K == "obj" && len(n.Keys) > 1 {
-		perm := rapid.Permutation(indices(len(n.Keys))).Draw(t, "perm")
+		perm := rapid.Permutation(vhIndices(len(n.Keys))).Draw(t, "perm")
 		keys := make([]string, len(n.Keys))
 		kids := make([]JNode, len(n.Keys))
 		for i, p := range perm {
@@ -225,7 +225,7 @@ func (n JNode) Permuted(t *rapid.T) JNode {
 	return out
 }
 
-func indices(n int) []int {
+func vhIndices(n int) []int {
 	out := make([]int, n)
 	for i := range out {
 		out[i] = i
@@ -250,11 +250,11 @@ func (n JNode) Depth() int {
 func (n JNode) Canon() string {
 	switch n.K {
 	case "obj":
-		idx := indices(len(n.Keys))
+		idx := vhIndices(len(n.Keys))
 		sort.Slice(idx, func(a, b int) bool { return n.Keys[idx[a]] < n.Keys[idx[b]] })
 		parts := make([]string, len(idx))
 		for i, p := range idx {
-			parts[i] = jsonQuote(n.Keys[p]) + ":" + n.Kids[p].Canon()
+			parts[i] = vhJsonQuote(n.Keys[p]) + ":" + n.Kids[p].Canon()
 		}
 		return "{" + strings.Join(parts, ",") + "}"
 	case "arr":
